@@ -69,18 +69,23 @@ func abs64(a int64) int64 {
 }
 
 func naluEqualIgnoringAUD(kind string, got, want [][]byte) bool {
-	var g [][]byte
-	for _, n := range got {
-		if isH264(kind) && len(n) > 0 && n[0]&0x1f == 9 {
-			continue
+	// (MPEG-TS: the container has delimiters of its own; those of the written unit and those of the decoded one are set aside)
+	strip := func(in [][]byte) [][]byte {
+		var out [][]byte
+		for _, n := range in {
+			if isH264(kind) && len(n) > 0 && n[0]&0x1f == 9 {
+				continue
+			}
+			out = append(out, n)
 		}
-		g = append(g, n)
+		return out
 	}
-	if len(g) != len(want) {
+	g, w := strip(got), strip(want)
+	if len(g) != len(w) {
 		return false
 	}
 	for i := range g {
-		if !bytes.Equal(g[i], want[i]) {
+		if !bytes.Equal(g[i], w[i]) {
 			return false
 		}
 	}
